@@ -168,6 +168,39 @@ def chk_corner(root, i, il_spec):
     return "corner-agrees:" + kind, True, []
 
 
+def chk_clone(root, i):
+    """duplicated nodes (copy.copy / copy.deepcopy / pickle round trip) on the public and on the private side: the duplicate of
+    a derived node shows the same fields and key string and derives the same children; the duplicate of a parent derives the
+    same child"""
+    viols, n = [], 0
+    t = root.get("testnet", False)
+    for side, r in (("public", pub_root(root)), ("private", root)):
+        refp = hdscen.ref_root(pub_root(root))
+        rc = hd.derive(refp, [i])
+        rg = hd.derive(rc, [1])
+        xp = lambda nd: hd.xpub(nd, 0x043587CF if t else 0x0488B21E)
+        def view(node):
+            return [node.public_key.sec().hex(), bytes(node.chain_code).hex(), node.depth, node.index, bytes(node.parent_fingerprint).hex(), node.extended_public_key()]
+        def ref_view(nd):
+            return [secp.sec(nd.K).hex(), nd.chain.hex(), nd.depth, nd.index, nd.pfp.hex(), xp(nd)]
+        st, child = attempt(lambda: hdscen.impl_root(r).ckd(i))
+        if st != "ok":
+            continue
+        for how, c in hdscen.clones(child):
+            n += 1
+            st, got = attempt(lambda: [view(c), view(c.ckd(1))])
+            if st != "ok" or got != [ref_view(rc), ref_view(rg)]:
+                viols.append(V("%s:clone:%s:%s:differs" % (P, side, how), "%s of the %s child %d of %r (and its child 1)" % (how, side, i, root),
+                               str(got)[:200], str([ref_view(rc), ref_view(rg)])[:200]))
+        for how, c in hdscen.clones(hdscen.impl_root(r)):
+            n += 1
+            st, got = attempt(lambda: view(c.ckd(i)))
+            if st != "ok" or got != ref_view(rc):
+                viols.append(V("%s:clone:%s-parent:%s:differs" % (P, side, how), "child %d derived from a %s of the %s parent %r" % (i, how, side, root),
+                               str(got)[:200], str(ref_view(rc))[:200]))
+    return ("violation" if viols else "clones-agree"), True, viols
+
+
 def chk_refusal(root, form, arg):
     r = pub_root(root)
     node = hdscen.impl_root(r)
@@ -200,6 +233,8 @@ def execute(case):
     if k == "corner":
         from ..core import isolated
         o, nt, vs = isolated(chk_corner, case["root"], case["i"], tuple(case["il"]))
+    elif k == "clone":
+        o, nt, vs = chk_clone(case["root"], case["i"])
     elif k == "refuse":
         o, nt, vs = chk_refusal(case["root"], case["form"], case["arg"])
     elif "hist" in case and "model" not in case and k is None:
@@ -283,6 +318,7 @@ def run(ctx):
     corners = [("il", 1), ("il", 2), ("kpar", 0), ("il", N - 1), ("child", N - 1), ("child", 1), ("il", 2**255), ("child", 2), ("il", N - 2)]
     cases = [{"k": "corner", "root": root, "i": i, "il": list(c)} for root in roots for i in (0, H - 1, alpha[3]) for c in corners]
     ctx.product("prf-corners", cases, execute)
+    ctx.product("duplicated-nodes", [{"k": "clone", "root": root, "i": i} for root in roots for i in (0, H - 1)], execute)
     cases = []
     hard = [H, H + 1, H + r.randrange(2, H - 1), 2**32 - 1, 2**32, 2**40]
     for root in roots:
